@@ -17,7 +17,9 @@ POOL_T = [("a.txt", b"A-content"), ("x.tmp", b"tmp1"), ("d", DIR), ("d/f.txt", b
 POOL_X = POOL + [("ls\u2028ep.txt", b"linesep"), ("d/é è", DIR), ("d/é è/\U0001F3AC.mov", b"astral"),
                  ("ascmhl_notes.txt", b"not a history file"), ("clip.mhl", b"a media file that ends in .mhl"), (".hidden", b"dot file"),
                  ("my.ascmhl", DIR), ("my.ascmhl/inner.txt", b"inside a folder whose name contains ascmhl"),
-                 ("emp/emp2", DIR), ("0001_root_2020-01-01_000000Z.mhl", b"media file named like a manifest")]
+                 ("emp/emp2", DIR), ("0001_root_2020-01-01_000000Z.mhl", b"media file named like a manifest"),
+                 (".hid", DIR), (".hid/in.txt", b"in a hidden folder"), ("e\u0301.txt", b"decomposed name"), ("back\\slash.txt", b"backslash"),
+                 (" lead", b"leading blank"), ("trail ", DIR), ("trail /t.txt", b"in a folder with a trailing blank")]
 FSETS = [["xxh64"], ["c4", "md5"], list(ref.FORMATS_CLI)]
 
 
@@ -50,6 +52,7 @@ def enabled(tree, meta):
             out.append((ops.create("", fs), m2, cont))
         out.append((ops.create("", ["xxh64"], n=True), m2, cont))
         out.append((ops.create("", ["md5"], slash=True), m2, cont))   # ROOT/ as tab completion writes it
+        out.append((ops.create("", ["md5", "xxh64", "md5"]), m2, cont))   # a format requested twice
         if meta.get("pool") == "t":
             # (with a separator: anchored at the root - three levels deep, and a root-level twin of a deeper path)
             for ps in (["*.tmp"], ["sub/"], ["x.tmp", "sub"], ["d/sub/t.tmp"], ["sub/s.txt", "sub/t.tmp"], ["*.tmp", "!x.tmp"]):
@@ -93,7 +96,7 @@ def recorded(pre, post):
         m = ref.read_manifest(post[mp])
         for rec in m["records"]:
             p = rec["path"]
-            if p is None or p.startswith("/") or "\\" in p or p in ("", ".") or ".." in p.split("/") or "//" in p \
+            if p is None or p.startswith("/") or p in ("", ".") or ".." in p.split("/") or "//" in p \
                     or p.endswith("/") or p.startswith("./"):
                 bad.append((mp, p))
                 continue
@@ -199,9 +202,10 @@ def main(tier, seed):
         plans = [dict(k=3, max_gens=2, max_edits=0, pool="p", sf2=False), dict(k=2, max_gens=2, max_edits=1, pool="p"),
                  dict(k=3, max_gens=2, max_edits=0, pool="t", sf2=False), dict(k=2, max_gens=2, max_edits=0, pool="x", sf2=False)]
     else:
-        plans = [dict(k=3, max_gens=3, max_edits=1, pool="p", sf2=False), dict(k=3, max_gens=2, max_edits=1, pool="p"),
+        plans = [dict(k=3, max_gens=3, max_edits=0, pool="p", sf2=False), dict(k=3, max_gens=2, max_edits=1, pool="p"),
                  dict(k=4, max_gens=2, max_edits=0, pool="p", sf2=False),
-                 dict(k=3, max_gens=2, max_edits=1, pool="x", rich=True), dict(k=3, max_gens=3, max_edits=1, pool="t", sf2=False), dict(k=4, max_gens=2, max_edits=0, pool="t", sf2=False)]
+                 dict(k=3, max_gens=2, max_edits=0, pool="x", rich=True), dict(k=3, max_gens=2, max_edits=1, pool="t", sf2=False),
+                 dict(k=4, max_gens=2, max_edits=0, pool="t", sf2=False)]
     if os.environ.get("VERIF_ONLY_PLAN"):   # (timing aid when tuning bounds)
         plans = [plans[int(os.environ["VERIF_ONLY_PLAN"])]]
     tot = {"states": 0, "transitions": 0}
